@@ -80,6 +80,7 @@ def plan(tier, scale):
     out += [{"part": "decode", "n": int(n_dec * scale)} for _ in range(sh)]
     out.append({"part": "alltags"})
     out.append({"part": "intlimit", "n": int((300 if tier == "quick" else 4000) * scale)})
+    out += [{"part": "concurrent", "n": int((60 if tier == "quick" else 1500) * scale)} for _ in range(2 if tier == "quick" else 4)]
     if tier == "thorough":
         out += [{"part": "atheris", "runs": int(600000 * scale), "corpus": c} for c in ("empty", "seeded")]
     return out
@@ -255,8 +256,65 @@ def decode_inputs():
     return st.one_of(raw, tagged, anytag, mut, mut)
 
 
+def concurrent_cases():
+    """2..6 values, one per thread; floats and complex numbers (fixed-width packing) over-represented"""
+    fl = vals.float_hex().map(lambda h: ["float", h])
+    cx = st.tuples(vals.float_hex(), vals.float_hex()).map(lambda t: ["complex", t[0], t[1]])
+    one = st.one_of(cx, cx, fl, vals.immutables(big=False, max_leaves=6), st.tuples(cx, fl).map(lambda t: ["tuple", list(t)]))
+    return st.lists(one, min_size=2, max_size=6).map(lambda xs: {"part": "concurrent", "specs": xs})
+
+
+def check_concurrent(case, rec, rounds=400):
+    """the encoding of a value does not depend on what other threads are encoding at the same moment: every dump() issued while
+    other threads dump their own values must return the bytes the same call returns alone (and those must round-trip).
+    The interpreter owns the schedule here (switch interval 1 us): a miss proves nothing, a mismatch is always real."""
+    import threading
+    from rpyc.core import brine
+    values = [vals.build(sp) for sp in case["specs"]]
+    alone = [brine.dump(v) for v in values]
+    fails = []
+    for v, b in zip(values, alone):
+        if not vals.same(brine.load(b), v):
+            fails.append(Failure("roundtrip", "sequential baseline", case))
+    wrong = []
+    start = threading.Barrier(len(values))
+
+    def work(i):
+        v, b = values[i], alone[i]
+        start.wait()
+        for _ in range(rounds):
+            try:
+                got = brine.dump(v)
+            except Exception as ex:
+                wrong.append((i, "raised %s" % type(ex).__name__))
+                return
+            if got != b:
+                wrong.append((i, got.hex()[:80]))
+                return
+    old = sys.getswitchinterval()
+    sys.setswitchinterval(1e-6)
+    try:
+        ts = [threading.Thread(target=work, args=(i,)) for i in range(len(values))]
+        for t in ts:
+            t.start()
+        for t in ts:
+            t.join()
+    finally:
+        sys.setswitchinterval(old)
+    if wrong:
+        i, got = wrong[0]
+        fails.append(Failure("concurrent-encode", "a dump() issued while other threads were encoding returned other bytes than alone: " + case["specs"][i][0],
+                             case, got, alone[i].hex()[:80]))
+    kinds = set(sp[0] for sp in case["specs"])
+    rec.case(case, len(kinds & {"float", "complex", "tuple"}) >= 1, ["concurrent:%d-threads" % len(values)] + ["concurrent:" + k for k in kinds])
+    rec.count("concurrent dump() calls compared", rounds * len(values))
+    return fails
+
+
 def run_shard(desc, seed, rec, tier):
-    if desc["part"] == "encode":
+    if desc["part"] == "concurrent":
+        drive(rec, concurrent_cases(), lambda c: check_concurrent(c, rec), desc["n"], seed)
+    elif desc["part"] == "encode":
         huge = st.one_of(vals.huge_ints(), vals.huge_ints().map(lambda s: ["tuple", [["int", "1"], s]]))
         strat = st.one_of(vals.immutables(), vals.immutables(), vals.non_dumpables(), huge)
         drive(rec, strat, lambda spec: check_encode(spec, rec), desc["n"], seed)
@@ -282,4 +340,6 @@ def replay(case, rec):
         return check_encode(case["spec"], rec)
     if case["part"] == "intlimit":
         return check_intlimit(case, rec)
+    if case["part"] == "concurrent":
+        return check_concurrent(case, rec, rounds=4000)
     return check_decode(bytes.fromhex(case["hex"]), rec, "replay")
